@@ -191,6 +191,49 @@ func init() {
 		e.mu.Unlock()
 		return nil, false
 	})
+	spyCalls := func(s *State, name string) []spyRec {
+		var out []spyRec
+		for _, r := range s.Spy {
+			if r.Name == name {
+				out = append(out, r)
+			}
+		}
+		return out
+	}
+	reg(vp+"SpyCount", func(e *Exec, s *State, f *Frame, x *ssa.Call, a []Val) ([]*State, bool) {
+		return ret(f, x, intc(int64(len(spyCalls(s, a[0].(StrV).S)))))
+	})
+	spyArg := func(s *State, a []Val) Val {
+		calls := spyCalls(s, a[0].(StrV).S)
+		ci, _ := asConst(a[1].(Sym).S)
+		ai, _ := asConst(a[2].(Sym).S)
+		if ci == nil || ai == nil || int(ci.Int64()) >= len(calls) || int(ai.Int64()) >= len(calls[ci.Int64()].Args) {
+			panic("SpyArg: no such call/argument")
+		}
+		return calls[ci.Int64()].Args[ai.Int64()]
+	}
+	reg(vp+"SpyArgZ", func(e *Exec, s *State, f *Frame, x *ssa.Call, a []Val) ([]*State, bool) {
+		switch v := spyArg(s, a).(type) {
+		case BigV:
+			if v.Nil {
+				return ret(f, x, BigV{T: "0"})
+			}
+			return ret(f, x, BigV{T: v.T})
+		case Sym:
+			return ret(f, x, BigV{T: v.S})
+		}
+		panic("SpyArgZ: argument is not numeric")
+	})
+	reg(vp+"SpyArgBool", func(e *Exec, s *State, f *Frame, x *ssa.Call, a []Val) ([]*State, bool) {
+		return ret(f, x, spyArg(s, a).(Sym))
+	})
+	reg(vp+"SpyErrNil", func(e *Exec, s *State, f *Frame, x *ssa.Call, a []Val) ([]*State, bool) {
+		calls := spyCalls(s, a[0].(StrV).S)
+		ci, _ := asConst(a[1].(Sym).S)
+		r := calls[ci.Int64()].Res
+		iv := r[len(r)-1].(IfaceV)
+		return ret(f, x, Sym{Bool: true, S: ifaceNilTerm(iv)})
+	})
 	reg(vp+"Note", func(e *Exec, s *State, f *Frame, x *ssa.Call, a []Val) ([]*State, bool) {
 		e.mu.Lock()
 		e.notes[a[0].(StrV).S] = true
